@@ -107,7 +107,16 @@ def m_isnan(x):
     return False if isinstance(x, SNum) else math.isnan(x)
 
 
-math_shim = Shim(math, sin=ops.ssin, cos=ops.scos, exp=ops.sexp, sqrt=ops.ssqrt, pow=m_pow,
+def m_isclose(a, b, rel_tol=1e-09, abs_tol=0.0):
+    if not (isinstance(a, SNum) or isinstance(b, SNum)):
+        return math.isclose(a, b, rel_tol=rel_tol, abs_tol=abs_tol)
+    if core._is_inf(a) or core._is_inf(b):
+        return False                      # a proxy is finite: never close to an infinity
+    d = abs(a - b)
+    return ops.And(d <= ops.smax(rel_tol * ops.smax(abs(a), abs(b)), abs_tol))
+
+
+math_shim = Shim(math, isclose=m_isclose, sin=ops.ssin, cos=ops.scos, exp=ops.sexp, sqrt=ops.ssqrt, pow=m_pow,
                  fabs=ops.sfabs, isfinite=m_isfinite, isinf=m_isinf, isnan=m_isnan)
 
 
